@@ -662,7 +662,16 @@ class Evaluator:
                     out.append(self._expr(x, env, mod, cls))
             return out if isinstance(e, ast.List) else (tuple(out) if isinstance(e, ast.Tuple) else set(out))
         if isinstance(e, ast.Dict):
-            return {self._expr(k, env, mod, cls): self._expr(v, env, mod, cls) for k, v in zip(e.keys, e.values)}
+            d_ = {}
+            for k, v in zip(e.keys, e.values):
+                if k is None:   # {**other}: the entries of a mapping, in its order
+                    m_ = self._expr(v, env, mod, cls)
+                    if not isinstance(m_, dict):
+                        raise Undecided("dict unpacking of %s" % type(m_).__name__)
+                    d_.update(m_)
+                else:
+                    d_[self._expr(k, env, mod, cls)] = self._expr(v, env, mod, cls)
+            return d_
         if isinstance(e, ast.Subscript):
             o = self._expr(e.value, env, mod, cls)
             if isinstance(e.slice, ast.Slice):
